@@ -73,6 +73,7 @@ class C14(Prop):
         return run(Source(seed), sample)
 
     def execute(self, sim, profile):
+        import haiway.helpers.retries as retries_module
         from haiway import retry
 
         s = sim.source
@@ -80,14 +81,18 @@ class C14(Prop):
         limit = 1 + s.draw(4, "limit")
         ck = s.draw(len(CATCHING), "catching")
         catching_name, catching_make = CATCHING[ck]
-        dk = s.draw(5, "delay")  # none, float, int, callable, float-zero-ish
-        seq_len = s.draw(limit + 3, "seq-len")
-        seq = [KINDS[s.weighted((2, 5, 2, 1, 1, 1), "outcome")] for _ in range(seq_len)]
-        durs = [(0, 0, 64, -1)[s.draw(4, "dur")] if is_async else 0 for _ in range(seq_len + 1)]
-        table = [(1 + s.draw(3, "dly")) * 32 for _ in range(limit + 1)]  # callable delay table (grid steps)
-        sim.program = {"variant": profile, "limit": limit, "catching": catching_name,
-                       "delay": ("none", "float", "int", "callable", "float")[dk], "outcomes": seq,
-                       "durations": durs, "delay_table": table,
+        dk = s.draw(7, "delay")  # none, float, int, callable, float, float zero, int zero
+        ncalls = 1 + (s.weighted((3, 1), "ncalls") if is_async else 0)  # overlapping invocations of ONE wrapped function
+        table = [(0, 1, 2, 3)[s.draw(4, "dly")] * 32 for _ in range(limit + 1)]  # callable delay table (grid steps, 0 allowed)
+        calls = []
+        for ci in range(ncalls):
+            seq_len = s.draw(limit + 3, "seq-len")
+            seq = [KINDS[s.weighted((2, 5, 2, 1, 1, 1), "outcome")] for _ in range(seq_len)]
+            durs = [(0, 0, 64, -1)[s.draw(4, "dur")] if is_async else 0 for _ in range(seq_len + 1)]
+            calls.append({"outcomes": seq, "durations": durs})
+        delay_name = ("none", "float", "int", "callable", "float", "float-zero", "int-zero")[dk]
+        sim.program = {"variant": profile, "limit": limit, "catching": catching_name, "delay": delay_name,
+                       "calls": calls, "delay_table": table,
                        "cancel_at_iteration": sim.inject_choice if profile == "async-sweep" else 0}
 
         if catching_make is None:
@@ -96,69 +101,77 @@ class C14(Prop):
             c = catching_make()
             caught_types = tuple(c) if isinstance(c, (tuple, set)) else (c,)
 
-        excs = []
-        for k, kind in enumerate(seq):
-            excs.append({"ok": None, "caught": A(k), "sub": A1(k), "other": B(k),
-                         "cancelled": asyncio.CancelledError(), "base": InjectedBase(k)}[kind])
-        values = [Obj(("v", k)) for k in range(seq_len + 1)]
-        attempts = []  # (k, start time, end time)
-        delay_calls = []
-        sleeps = []
+        per = []
+        for ci, spec in enumerate(calls):
+            seq = spec["outcomes"]
+            excs = [{"ok": None, "caught": A((ci, k)), "sub": A1((ci, k)), "other": B((ci, k)),
+                     "cancelled": asyncio.CancelledError(), "base": InjectedBase((ci, k))}[kind] for k, kind in enumerate(seq)]
+            per.append({"seq": seq, "durs": spec["durations"], "excs": excs,
+                        "values": [Obj(("v", ci, k)) for k in range(len(seq) + 1)], "attempts": [], "delay_calls": [],
+                        "out": {"kind": None, "obj": None, "at": None}})
+        sleeps = []  # sync: time.sleep requests; async: asyncio.sleep requests made by the retry wrapper
         state = {"cancel_seq": None, "cancel_ret": None, "cancel_at": None}
 
         def delay_fn(attempt, exc):
-            delay_calls.append((attempt, exc))
+            ci = exc.args[0][0] if exc.args and isinstance(exc.args[0], tuple) else 0
+            per[ci]["delay_calls"].append((attempt, exc))
             return table[min(attempt, limit) - 1] * GRID if attempt >= 1 else 0.0
 
-        if dk == 0:
-            delay_arg = None
-        elif dk in (1, 4):
-            delay_arg = 64 * GRID
-        elif dk == 2:
-            delay_arg = 1
-        else:
-            delay_arg = delay_fn
+        delay_arg = {0: None, 1: 64 * GRID, 2: 1, 3: delay_fn, 4: 64 * GRID, 5: 0.0, 6: 0}[dk]
+        fixed_pause = {1: 64 * GRID, 2: 1.0, 4: 64 * GRID, 5: 0.0, 6: 0.0}.get(dk)
 
         def on_sleep(seconds):
-            sleeps.append(seconds)
-            sim.event("sleep_sync", seconds)
+            sleeps.append(float(seconds))
+            sim.event("sleep_sync", float(seconds))
             sim.loop._now += float(seconds)
 
         sim.on_sleep_sync = on_sleep
+        real_async_sleep = retries_module.sleep
 
-        def body_common(k, args, kwargs):
-            if args != ("a", 1) or kwargs != {"kw": "k"}:
-                sim.fail("arguments", f"attempt {k} received args={args!r} kwargs={kwargs!r}")
-            if state["cancel_ret"] and state["cancel_seq"] is not None:
+        async def recording_sleep(delay, result=None):
+            # seam: asyncio.sleep as imported by the retry module (records the request, then really sleeps virtually)
+            sleeps.append(float(delay))
+            sim.event("sleep_async", float(delay))
+            return await real_async_sleep(delay, result)
+
+        def body_common(ci, k, args, kwargs):
+            if args != ("a", ci) or kwargs != {"kw": "k"}:
+                sim.fail("arguments", f"attempt {k} of call {ci} received args={args!r} kwargs={kwargs!r}")
+            if ci == 0 and state["cancel_ret"] and state["cancel_seq"] is not None:
                 sim.fail("attempt-after-cancel", f"attempt {k} started after the caller had been cancelled")
-            sim.event("attempt", k)
+            sim.event("attempt", ci, k)
 
-        def finish(k):
-            if k <= len(seq) and seq[k - 1] != "ok":
-                raise excs[k - 1]
-            return values[min(k, seq_len)]
+        def finish(ci, k):
+            p_ = per[ci]
+            if k <= len(p_["seq"]) and p_["seq"][k - 1] != "ok":
+                raise p_["excs"][k - 1]
+            return p_["values"][min(k, len(p_["seq"]))]
 
         if is_async:
             async def fn(*args, **kwargs):
-                k = len(attempts) + 1
-                body_common(k, args, kwargs)
+                ci = args[1] if len(args) > 1 and isinstance(args[1], int) and args[1] < len(per) else 0
+                p_ = per[ci]
+                k = len(p_["attempts"]) + 1
+                body_common(ci, k, args, kwargs)
                 rec = [k, sim.now, None]
-                attempts.append(rec)
+                p_["attempts"].append(rec)
                 try:
-                    d = durs[min(k - 1, len(durs) - 1)]
+                    d = p_["durs"][min(k - 1, len(p_["durs"]) - 1)]
                     if d > 0:
-                        await asyncio.sleep(d * GRID)
+                        await real_async_sleep(d * GRID)
                     elif d < 0:
-                        await sim.pause(f"attempt{k}")
-                    return finish(k)
+                        await sim.pause(f"attempt{ci}.{k}")
+                    return finish(ci, k)
                 finally:
                     rec[2] = sim.now
         else:
             def fn(*args, **kwargs):
-                k = len(attempts) + 1
-                body_common(k, args, kwargs)
-                attempts.append([k, sim.now, sim.now])
-                return finish(k)
+                ci = 0
+                p_ = per[ci]
+                k = len(p_["attempts"]) + 1
+                body_common(ci, k, args, kwargs)
+                p_["attempts"].append([k, sim.now, sim.now])
+                return finish(ci, k)
 
         kw = {"limit": limit}
         if delay_arg is not None:
@@ -167,14 +180,13 @@ class C14(Prop):
             kw["catching"] = catching_make()
         wrapped = retry(**kw)(fn)
 
-        out = {"kind": None, "obj": None, "at": None}
-
-        async def caller():
+        async def caller(ci):
+            out = per[ci]["out"]
             try:
                 if is_async:
-                    r = await wrapped("a", 1, kw="k")
+                    r = await wrapped("a", ci, kw="k")
                 else:
-                    r = wrapped("a", 1, kw="k")
+                    r = wrapped("a", ci, kw="k")
             except asyncio.CancelledError as exc:
                 out["kind"], out["obj"] = "cancelled", exc
             except BaseException as exc:  # noqa: BLE001
@@ -185,25 +197,30 @@ class C14(Prop):
             else:
                 out["kind"], out["obj"] = "value", r
             out["at"] = sim.now
-            sim.event("caller-outcome", out["kind"])
+            sim.event("caller-outcome", ci, out["kind"])
 
         async def main():
-            t = sim.loop.create_task(caller())
+            tasks = [sim.loop.create_task(caller(ci)) for ci in range(ncalls)]
+            t = tasks[0]
             if profile == "async-sweep" and sim.inject_choice:
                 def inj():
                     state["cancel_ret"] = t.cancel()
                     state["cancel_seq"] = sim.seq
                     state["cancel_at"] = sim.now
-                    state["attempts_at_cancel"] = len(attempts)
-                    state["in_attempt"] = bool(attempts) and attempts[-1][2] is None
+                    att = per[0]["attempts"]
+                    state["in_attempt"] = bool(att) and att[-1][2] is None
                     sim.event("cancel-caller", state["cancel_ret"])
                     if state["cancel_ret"]:
                         sim.stats["fault:cancel_in_attempt" if state["in_attempt"] else "fault:cancel_in_pause_or_between"] += 1
                         sim.nontrivial = True
                 sim.inject(sim.inject_choice, "cancel-caller", inj)
-            await asyncio.wait([t])
+            await asyncio.wait(tasks)
 
-        outcome = sim.run(main)
+        retries_module.sleep = recording_sleep
+        try:
+            outcome = sim.run(main)
+        finally:
+            retries_module.sleep = real_async_sleep
         if sim.violation is not None or sim.harness_errors:
             return
         if outcome != "ok":
@@ -213,71 +230,76 @@ class C14(Prop):
         if sim.main.exception() is not None:
             sim.harness_error(f"main failed: {sim.main.exception()!r}")
             return
-
-        # ---- reference ---------------------------------------------------------------------------
-        if state["cancel_ret"]:
-            if out["kind"] != "cancelled":
-                sim.fail_post("cancel-swallowed", f"caller was cancelled at {state['cancel_at']} but ended with {out['kind']} {out['obj']!r}")
-            return
-        exp_calls = 0
-        exp_pauses = []
-        exp_delay_calls = []
-        k = 0
-        while True:
-            k += 1
-            exp_calls = k
-            kind = seq[k - 1] if k <= len(seq) else "ok"
-            if kind == "ok":
-                exp = ("value", values[min(k, seq_len)])
-                break
-            exc = excs[k - 1]
-            if kind in ("cancelled", "base"):
-                exp = ("cancelled" if kind == "cancelled" else "raised", exc)
-                break
-            if isinstance(exc, caught_types) and k - 1 < limit:
-                if dk in (1, 4):
-                    exp_pauses.append(64 * GRID)
-                elif dk == 2:
-                    exp_pauses.append(1.0)
-                elif dk == 3:
-                    exp_pauses.append(table[min(k, limit) - 1] * GRID)
-                    exp_delay_calls.append((k, exc))
-                else:
-                    exp_pauses.append(0.0)
-                continue
-            exp = ("raised", exc)
-            break
-        if exp_pauses:
+        if ncalls > 1:
+            sim.stats["overlapping_invocations"] += 1
             sim.nontrivial = True
-            sim.stats["retries_taken"] += len(exp_pauses)
-        if len(attempts) != exp_calls:
-            sim.fail_post("attempts", f"function called {len(attempts)} times, expected {exp_calls} "
-                          f"(limit={limit}, outcomes={seq}, catching={catching_name}); caller got {out['kind']} {out['obj']!r}",
-                          delta="more" if len(attempts) > exp_calls else "fewer",
-                          delay=sim.program["delay"] if out["kind"] == "raised" and isinstance(out["obj"], TypeError) else "-")
-            return
-        got_kind, got_obj = out["kind"], out["obj"]
-        if exp[0] == "cancelled":
-            ok = got_kind == "cancelled" and got_obj is exp[1]
-        else:
-            ok = got_kind == exp[0] and got_obj is exp[1]
-        if not ok:
-            sim.fail_post("outcome", f"caller got {got_kind} {got_obj!r}, expected {exp[0]} {exp[1]!r} (outcomes={seq}, limit={limit})",
-                          got=f"{got_kind}:{type(got_obj).__name__}", want=f"{exp[0]}:{type(exp[1]).__name__}")
-            return
-        # pauses
-        if dk == 3 and [(a, id(e)) for a, e in delay_calls] != [(a, id(e)) for a, e in exp_delay_calls]:
-            sim.fail_post("delay-args", f"delay function called with {[(a, repr(e)) for a, e in delay_calls]}, expected "
-                          f"{[(a, repr(e)) for a, e in exp_delay_calls]}")
-            return
-        if not is_async:
-            want = [p for p in exp_pauses] if dk != 0 else []
-            if [float(x) for x in sleeps] != [float(x) for x in want]:
-                sim.fail_post("pauses", f"sleeps requested {sleeps}, expected {want} (delay={sim.program['delay']})")
+
+        # ---- reference, per invocation -------------------------------------------------------------
+        all_pauses = []
+        for ci in range(ncalls):
+            p_ = per[ci]
+            out, seq, excs, values, attempts = p_["out"], p_["seq"], p_["excs"], p_["values"], p_["attempts"]
+            if ci == 0 and state["cancel_ret"]:
+                if out["kind"] != "cancelled":
+                    sim.fail_post("cancel-swallowed", f"caller was cancelled at {state['cancel_at']} but ended with {out['kind']} {out['obj']!r}")
+                    return
+                all_pauses = None
+                continue
+            exp_pauses = []
+            exp_delay_calls = []
+            k = 0
+            while True:
+                k += 1
+                exp_calls = k
+                kind = seq[k - 1] if k <= len(seq) else "ok"
+                if kind == "ok":
+                    exp = ("value", values[min(k, len(seq))])
+                    break
+                exc = excs[k - 1]
+                if kind in ("cancelled", "base"):
+                    exp = ("cancelled" if kind == "cancelled" else "raised", exc)
+                    break
+                if isinstance(exc, caught_types) and k - 1 < limit:
+                    if fixed_pause is not None:
+                        exp_pauses.append(fixed_pause)
+                    elif dk == 3:
+                        exp_pauses.append(table[min(k, limit) - 1] * GRID)
+                        exp_delay_calls.append((k, exc))
+                    else:
+                        exp_pauses.append(None)  # no delay configured: no pause at all
+                    continue
+                exp = ("raised", exc)
+                break
+            if exp_pauses:
+                sim.nontrivial = True
+                sim.stats["retries_taken"] += len(exp_pauses)
+            if len(attempts) != exp_calls:
+                sim.fail_post("attempts", f"call {ci}: function called {len(attempts)} times, expected {exp_calls} "
+                              f"(limit={limit}, outcomes={seq}, catching={catching_name}, overlapping={ncalls > 1}); caller got "
+                              f"{out['kind']} {out['obj']!r}",
+                              delta="more" if len(attempts) > exp_calls else "fewer",
+                              delay=delay_name if out["kind"] == "raised" and isinstance(out["obj"], TypeError) else "-")
                 return
-        gaps = [attempts[i + 1][1] - attempts[i][2] for i in range(len(attempts) - 1)]
-        if any(abs(g - p) > EPS for g, p in zip(gaps, exp_pauses)) or len(gaps) != len(exp_pauses):
-            sim.fail_post("pauses", f"gaps between attempts {gaps}, expected {exp_pauses} (delay={sim.program['delay']})")
+            got_kind, got_obj = out["kind"], out["obj"]
+            if not (got_kind == exp[0] and got_obj is exp[1]):
+                sim.fail_post("outcome", f"call {ci}: caller got {got_kind} {got_obj!r}, expected {exp[0]} {exp[1]!r} (outcomes={seq}, limit={limit})",
+                              got=f"{got_kind}:{type(got_obj).__name__}", want=f"{exp[0]}:{type(exp[1]).__name__}")
+                return
+            if dk == 3 and [(a, id(e)) for a, e in p_["delay_calls"]] != [(a, id(e)) for a, e in exp_delay_calls]:
+                sim.fail_post("delay-args", f"call {ci}: delay function called with {[(a, repr(e)) for a, e in p_['delay_calls']]}, expected "
+                              f"{[(a, repr(e)) for a, e in exp_delay_calls]}")
+                return
+            gaps = [attempts[i + 1][1] - attempts[i][2] for i in range(len(attempts) - 1)]
+            want_gaps = [p or 0.0 for p in exp_pauses]
+            if len(gaps) != len(want_gaps) or any(abs(g - w) > EPS for g, w in zip(gaps, want_gaps)):
+                sim.fail_post("pauses", f"call {ci}: gaps between attempts {gaps}, expected {want_gaps} (delay={delay_name})", how="gap")
+                return
+            if all_pauses is not None:
+                all_pauses.extend(p for p in exp_pauses if p is not None)
+        # the sleep requests themselves: exactly one per retry when a delay is configured (even a zero one), none otherwise
+        if all_pauses is not None and sorted(sleeps) != sorted(float(p) for p in all_pauses):
+            sim.fail_post("pauses", f"sleep requests {sleeps}, expected {all_pauses} (delay={delay_name}, "
+                          f"{'async' if is_async else 'sync'})", how="requests")
             return
         if sim.loop_errors:
             sim.fail_post("loop-error", f"loop exception handler called: {sim.loop_errors[:2]}")
